@@ -187,13 +187,13 @@ def modelActor (line : String) : String :=
 
 def model (line : String) : String :=
   match words line with
-  | ["mg", s] => match parseSrcs s with
+  | ["mg", s] | ["mgb", s] => match parseSrcs s with
     | some srcs => fmtBranch (fmtInts srcs.flatten)
     | none => "bad-case"
-  | ["cc", s] => match parseSrcs s with
+  | ["cc", s] | ["ccb", s] => match parseSrcs s with
     | some srcs => fmtBranch (fmtInts srcs.flatten)
     | none => "bad-case"
-  | ["zp", s] => match parseSrcs s with
+  | ["zp", s] | ["zpb", s] => match parseSrcs s with
     | some srcs => fmtBranch ((zipN srcs).map fmtTuple)
     | none => "bad-case"
   | ["bc", n, s] => match n.toNat?, parseSrc s with
@@ -304,9 +304,9 @@ def judge (line : String) : String :=
   | _ =>
     let jn : Option (Junction × List (List Int)) :=
       match f with
-      | ["mg", s] => (parseSrcs s).map (Junction.merge, ·)
-      | ["cc", s] => (parseSrcs s).map (Junction.concat, ·)
-      | ["zp", s] => (parseSrcs s).map (Junction.zip, ·)
+      | ["mg", s] | ["mgb", s] => (parseSrcs s).map (Junction.merge, ·)
+      | ["cc", s] | ["ccb", s] => (parseSrcs s).map (Junction.concat, ·)
+      | ["zp", s] | ["zpb", s] => (parseSrcs s).map (Junction.zip, ·)
       | ["bc", n, s] => do let n ← n.toNat?; let src ← parseSrc s; pure (.broadcast n, [src])
       | "bl" :: n :: s :: _ => do let n ← n.toNat?; let src ← parseSrc s; pure (.balance n, [src])
       | "blb" :: n :: s :: _ => do let n ← n.toNat?; let src ← parseSrc s; pure (.balance n, [src])
